@@ -594,10 +594,67 @@ func C19(c *vk.Ctx) {
 			c.Violation("syntaxes-disagree:"+effDiff(lj.Eff, lc.Eff), "the JSON and Caddyfile forms of the same settings yield different validators", rep)
 		}
 	}
+	n += c19FileContents(c, env)
 	c.Set("traces_validated_against_impl", int64(n))
 	c.Set("spec", "Config.tla: Effective(cfg) and ProvisionOK(cfg) over the option space mode x crl_config{work_dir, storage_type, update_interval, signature_validation_mode, crl_urls, crl_files, trusted certs, cdp_config{crl_fetch_mode, crl_cdp_strict}} x ocsp_config{default_cache_duration, ocsp_aia_strict, trusted responder} x one unknown key at {top, crl, cdp, ocsp}; invariants Defaults, RejectUnknown, NoIgnoring, ValidProvisions")
 	c.Set("rule", "a case is one configuration rendered in both syntaxes, loaded with caddy.StrictUnmarshalJSON resp. UnmarshalCaddyfile and provisioned; compared: reject/accept, every parsed field against Effective(cfg) computed by TLC, and the two syntaxes against each other; configurations: every single value and every single fault on two bases, every unknown-key place, modes without CRL configuration, seeded random valid combinations")
 	c.Assume("configured CRLs are signed by a CA that is only available as a configured trusted signer; referenced files exist")
+}
+
+// c19FileContents: the effective configuration is a function of the options and of what the referenced files contain NOW: the
+// same configuration loaded again after a referenced certificate file was replaced in place (a CA or responder rotation) carries
+// the new certificate, in both syntaxes, whatever was loaded from that path before in this process.
+func c19FileContents(c *vk.Ctx, env *cfgEnv) int {
+	r := baseCfg()
+	r.CrlCfg, r.OcspCfg, r.Trusted, r.Responder, r.Urls, r.Files = true, true, "one", "one", "none", "none"
+	r = r.normalise()
+	serialOf := func(v *revocation.CertRevocationValidator) (string, string) {
+		sig, resp := "none", "none"
+		if v.CRLConfig != nil && len(v.CRLConfig.TrustedSignatureCerts) > 0 {
+			sig = v.CRLConfig.TrustedSignatureCerts[0].SerialNumber.String()
+		}
+		if v.OCSPConfig != nil && len(v.OCSPConfig.TrustedResponderCerts) > 0 {
+			resp = v.OCSPConfig.TrustedResponderCerts[0].SerialNumber.String()
+		}
+		return sig, resp
+	}
+	n := 0
+	for round := 0; round < 3; round++ {
+		want := fmt.Sprint(9100 + round)
+		ca := pki.NewCA(pki.CAOpts{Name: fmt.Sprintf("Rotated CA %d", round), Serial: int64(9100 + round)})
+		os.WriteFile(env.trustFile, pki.PEMCert(ca.Cert), 0o644)
+		os.WriteFile(env.respFile, pki.PEMCert(ca.Cert), 0o644)
+		for _, syntax := range []string{"json", "caddyfile"} {
+			v := &revocation.CertRevocationValidator{}
+			var err error
+			wd := env.workDir()
+			if syntax == "json" {
+				err = caddy.StrictUnmarshalJSON(env.renderJSON(r, wd), v)
+			} else {
+				err = v.UnmarshalCaddyfile(caddyfile.NewTestDispenser(env.renderCaddyfile(r, wd)))
+			}
+			if err == nil {
+				err = v.Provision(caddy.Context{})
+			}
+			n++
+			c.Eval(fmt.Sprintf("file-contents|%s|%d", syntax, round))
+			rep := map[string]any{"syntax": syntax, "round": round, "cfg": r}
+			if err != nil {
+				c.Violation(syntax+":rejects-valid-configuration:after-file-replaced", fmt.Sprintf("round %d: a valid configuration fails after its trusted certificate files were replaced in place: %v", round, err), rep)
+				func() { defer func() { recover() }(); v.Cleanup() }()
+				continue
+			}
+			sig, resp := serialOf(v)
+			if sig != want {
+				c.Violation(syntax+":effective-differs:crl.trusted-certificate-content", fmt.Sprintf("round %d: the trusted signature certificate in effect has serial %s, the file contains %s", round, sig, want), rep)
+			}
+			if resp != want {
+				c.Violation(syntax+":effective-differs:ocsp.responder-certificate-content", fmt.Sprintf("round %d: the trusted responder certificate in effect has serial %s, the file contains %s", round, resp, want), rep)
+			}
+			v.Cleanup()
+		}
+	}
+	return n
 }
 
 func rejectReason(r cfgRec) string {
